@@ -374,6 +374,7 @@ type PlanGen struct {
 	defs   [16]*ref.Record
 	serial uint32
 	known  []uint16
+	dead   bool // the plan has ended (a record that must be rejected was emitted)
 }
 
 // fileIdRecords returns the definition and data record of the leading file_id.
@@ -450,6 +451,24 @@ func NewPlanGen(rng *Rand, o GenOpts) *PlanGen {
 		arch = 1
 	}
 	recs := fileIdRecords(rng, o.FileType, local, arch, true, o.Unknown)
+	if o.Compressed > 0 && local < 4 && rng.Chance(o.Compressed, 400) {
+		// the file_id record itself under a compressed timestamp header (no reference yet)
+		recs[1].Compressed = true
+		recs[1].TimeOffset = byte(rng.Intn(32))
+	}
+	if o.UndefinedLocal > 0 && rng.Chance(o.UndefinedLocal, 600) {
+		// the very first data record names a slot other than the one just defined (all others
+		// are undefined at this point): the stream ends there
+		other := byte(rng.Intn(16))
+		if other != local {
+			recs[1].Local = other
+			recs[1].Compressed = false
+			if other < 4 && rng.Chance(1, 3) {
+				recs[1].Compressed = true
+			}
+			g.dead = true
+		}
+	}
 	g.P.Records = append(g.P.Records, recs...)
 	d := recs[0]
 	g.defs[local] = &d
@@ -839,6 +858,9 @@ func (g *PlanGen) Fill() *ref.Plan {
 		n = 20
 	}
 	emitted := 0
+	if g.dead {
+		return g.P
+	}
 	for emitted < n {
 		l := byte(rng.Intn(locals))
 		if g.O.UndefinedLocal > 0 && rng.Chance(g.O.UndefinedLocal, 1000) {
